@@ -49,6 +49,18 @@ def guarded_translate(ctx, fn, which, empty):
         return empty
 
 
+def note_translation(ctx, entries):
+    """record which translated definitions this property relies on; an entry that fell back to the pinned translation (the source function was renamed, merged,
+    inlined or left the translatable subset) downgrades the tie for that definition to the exact correspondence of this harness, which is said so in the evidence"""
+    ctx.translated = entries
+    for e in entries:
+        if isinstance(e, dict) and e.get("fallback"):
+            name = e.get("kernel") or e.get("table")
+            ctx.count("tie_downgraded_to_correspondence:" + str(name))
+            ctx.notes.append(f"translated definition {name} could not be regenerated from the current source ({e.get('why', '')[:120]}); its theorems were checked against the "
+                             "translation of the pinned source and the tie to the current code is this run's exact correspondence only")
+
+
 class InfrastructureError(RuntimeError):
     """lake / driver / toolchain problems: exit 2, never a verdict"""
 
